@@ -363,14 +363,17 @@ def leaf(label, path):
     return t
 
 
-def gen_num_expr(rng, in_label, tgt_label, navail, depth=2):
-    """numeric expression over the input leaves and earlier targets t0..t{navail-1}"""
+def gen_num_expr(rng, in_label, tgt_label, navail, depth=2, earlier=None):
+    """numeric expression over the input leaves and earlier targets t0..t{navail-1} (or the terms `earlier`)"""
     def operand(d):
         k = rng.random()
         if k < 0.25:
             return ["const", L(rng.choice([2, 3, -3, 0.5, -2.5, 10, 1e-05]))]
         if k < 0.6 or d <= 0:
-            if navail and rng.random() < 0.4:
+            if earlier is not None:
+                if earlier and rng.random() < 0.45:
+                    return rng.choice(earlier)
+            elif navail and rng.random() < 0.4:
                 return leaf(tgt_label, [f"t{rng.randrange(navail)}"])
             return leaf(in_label, rng.choice(IN_LEAVES))
         return expr(d - 1)
@@ -622,22 +625,23 @@ def multistep_correspondence(ctx, cases, results, tag):
         for i in chunk:
             c, r = cases[i], results[i]
             nsteps = len(r["dumps"])
+            state_ops = [op for op in c["ops"] if op[0] != "iter"]
             def tm(t):
                 rc.term_chars(t, chars)
                 return rc.emit_term(t, ft, cid)
             def defs(lst):
                 return "[" + "; ".join(f"({tm(t)}, {tm(e)})" for t, e in lst) + "]"
             ops = []
-            for op in c["ops"][:nsteps]:
+            for op in state_ops[:nsteps]:
                 if op[0] == "load":
                     ops.append(f"MLoad {'true' if op[2] else 'false'} {defs(c['sources'][op[1]]['defs'])}")
                 elif op[0] == "copy":
-                    sel = [d for d in c["sources"][op[1]]["defs"] if root_label(d[0]) == op[2]]
                     binds = "[" + "; ".join(f"({rc.clistN(cps(l))}, {tm(t)})" for l, t in op[3]) + "]"
-                    ops.append(f"MCopy {'true' if op[4] else 'false'} {defs(sel)} {binds}")
+                    # the model selects the definitions rooted in the requested container itself
+                    ops.append(f"MCopy {'true' if op[4] else 'false'} (select_owner {rc.clistN(cps(op[2]))} {defs(c['sources'][op[1]]['defs'])}) {binds}")
                 else:
                     ops.append(f"MAssign {tm(op[1])} " + ("None" if op[2][0] == "const" else f"(Some {tm(op[2])})"))
-            cs = "[" + "; ".join(f"({rc.clistN(cps(l))}, (TTop {rc.clistN(cps(l))} {'true' if k else 'false'}))" for l, k in MS_LABELS) + "]"
+            cs = "[" + "; ".join(f"({rc.clistN(cps(l))}, (TTop {rc.clistN(cps(l))} {'true' if k else 'false'}))" for l, k in c.get("labels", MS_LABELS)) + "]"
             dumps = "[" + "; ".join("[" + "; ".join(f"({rc.clistN(a)}, {rc.clistN(b)})" for a, b in d) + "]" for d in r["dumps"]) + "]"
             items.append(f"({cs}, [" + "; ".join(ops) + f"], {dumps})")
         texts.append(rc.COQ_HEADER.format(extra="model.RefsPrint run.RunRefsRepr run.RunRefsPrint")
@@ -658,6 +662,71 @@ def root_label(t):
     while t[0] in ("item", "attr"):
         t = t[1]
     return t[1] if t[0] == "top" else None
+
+
+# ---- source managers with several containers of mixed kinds --------------------------------------
+
+MIXED_KINDS = {"c": "d", "ad": "ad", "ob": "obj", "li": "list", "v": "np", "er": "eqraise", "eo": "eqodd"}
+
+
+def mixed_slots(label, rng):
+    kind = MIXED_KINDS[label]
+    top = ["top", label, 0]
+    if kind in ("list", "np"):
+        return [["item", top, ["const", L(i)]] for i in range(4)]
+    if kind == "obj":
+        return [["attr", top, cps(f"t{i}")] for i in range(3)]
+    if kind == "ad":
+        return [(["attr", top, cps(f"t{i}")] if rng.random() < 0.5 else ["item", top, ["const", L(f"t{i}")]]) for i in range(3)]
+    return [["item", top, ["const", L(f"t{i}")]] for i in range(3)]
+
+
+def mixed_data(labels):
+    data = {"a": D(INPUT)}
+    for lab in labels:
+        kind = MIXED_KINDS[lab]
+        if kind in ("list", "np"):
+            data[lab] = [kind, [L(0.0) for _ in range(4)]]
+        else:
+            data[lab] = [kind, [[L(f"t{i}"), ["v", L(0)]] for i in range(3)]]
+    return data
+
+
+def gen_mixed_case(rng, labels=None):
+    """a source manager with 2-4 target containers of different kinds, definitions in each of them; the
+    definitions of each container are asked for in turn (iter_expr_tasks_owner, copy_expr_from), then a load"""
+    labels = labels or rng.sample(sorted(MIXED_KINDS), rng.randint(2, 4))
+    slots = [s for lab in labels for s in mixed_slots(lab, rng)]
+    rng.shuffle(slots)
+    slots = slots[:rng.randint(len(labels) + 1, min(len(slots), 8))]
+    for lab in labels:       # every container gets at least one definition
+        if not any(root_label(s) == lab for s in slots):
+            slots.append(mixed_slots(lab, rng)[0])
+    history, defs, earlier = [], {}, []
+    for sl in slots:
+        val = gen_num_expr(rng, "a", None, 0, depth=rng.choice([1, 2]), earlier=list(earlier))
+        history.append([sl, val])
+        defs[json.dumps(sl)] = [sl, val]
+        earlier.append(sl)
+    src = {"data": mixed_data(labels), "history": history, "defs": list(defs.values())}
+    order = list(labels)
+    rng.shuffle(order)
+    ops = []
+    for lab in order:
+        ops.append(["iter", 0, lab])
+        ops.append(["copy", 0, lab, [], rng.random() < 0.7])
+    ops.append(["iter", 0, "a"])
+    ops.append(["load", 0, True])
+    for _ in range(rng.randint(1, 2)):
+        ops.append(["assign", leaf("a", rng.choice(IN_LEAVES)), ["const", L(rng.choice([0, 1, -2, 3.5, 10]))]])
+    return {"sources": [src], "target": {"data": mixed_data(labels)}, "ops": ops, "labels": [["a", 0]] + [[l, 0] for l in labels] + [["f", 0]]}
+
+
+def mixed_corpus():
+    import random
+    r = random.Random(38)
+    return [gen_mixed_case(r, ["c", "v"]), gen_mixed_case(r, ["v", "c", "er"]), gen_mixed_case(r, ["eo", "c"]),
+            gen_mixed_case(r, ["li", "ob", "ad", "v"]), gen_mixed_case(r, ["er", "eo", "v", "c"])]
 
 
 NODEPS_WITNESS = {
@@ -745,7 +814,8 @@ def run(ctx):
     ctx.obligations.append(("oracle: dump -> load -> same dump, same reaction to follow-ups; copy_expr_from gives the expected definitions "
                             "(rebinding, overwrite) and reactions", not mviol, f"{len(mviol)} failing of {2 * len(mcases)} (history raised in {skipped})"))
     # -- histories on one target manager (repeated load / copy_expr_from / assignment)
-    hcases = multistep_corpus() + [gen_multistep_case(rng) for _ in range(ctx.pick(150, 5000))]
+    hcases = multistep_corpus() + mixed_corpus() + [gen_multistep_case(rng) for _ in range(ctx.pick(150, 5000))] \
+        + [gen_mixed_case(rng) for _ in range(ctx.pick(120, 4000))]
     hres = {("compiled", 0): run_multistep(hcases, "compiled", 0), ("pure", 1): run_multistep(hcases, "pure", 1)}
     generr = [r["generator_error"] for rs in hres.values() for r in rs if r.get("generator_error")]
     if generr:
@@ -761,7 +831,8 @@ def run(ctx):
                 seen_bind = True
             elif seen_bind and op[0] in ("load", "copy"):
                 ctx.nontrivial.add(("hist", i))
-    ctx.obligations.append(("oracle: after EVERY operation of a history on one target manager (load | copy_expr_from plain / rebinding | assignment): "
+    ctx.obligations.append(("oracle: after EVERY operation of a history on one target manager (load | copy_expr_from plain / rebinding | assignment | "
+                            "iter_expr_tasks_owner; sources with 2-4 containers of mixed kinds: dict, AttrDict, object, list, numpy array, == raising, == non-bool): "
                             "expected definitions, values equal to a manager defined directly, containers map untouched (identity, no new labels)",
                             not hviol, f"{len(hviol)} failing of {2 * len(hcases)} histories, {2 * hsteps} operations"))
     hmism, hcount, herr = multistep_correspondence(ctx, hcases, hres[("compiled", 0)], "h")
@@ -770,6 +841,9 @@ def run(ctx):
     ctx.cov["input_distribution"] = {"expressions": len(exprs), "node_counts": dict(sorted(kinds.items())),
                                      "manager_cases": len(mcases), "multistep_histories": len(hcases), "multistep_operations": hsteps,
                                      "multistep_ops_by_kind": {k: sum(1 for c in hcases for op in c["ops"] if op[0] == k and (k != "copy" or bool(op[3]) == rb)) for k, rb in (("load", False), ("copy", False), ("assign", False))},
+                                     "mixed_container_histories": sum(1 for c in hcases if "labels" in c),
+                                     "mixed_container_kinds": {k: sum(1 for c in hcases if "labels" in c and any(l == k for l, _ in c["labels"])) for k in MIXED_KINDS},
+                                     "iter_expr_tasks_owner_calls": sum(1 for c in hcases for op in c["ops"] if op[0] == "iter"),
                                      "multistep_rebinding_copies": sum(1 for c in hcases for op in c["ops"] if op[0] == "copy" and op[3]),
                                      "multistep_histories_with_a_plain_load_or_copy_after_a_rebinding_copy": sum(1 for k in ctx.nontrivial if isinstance(k, tuple) and k[0] == "hist"), "histories_skipped_because_the_history_itself_raised": skipped,
                                      "copy_modes": {m: sum(1 for c in mcases if len(c["copy"]["bindings"]) == k) for m, k in (("same", 0), ("rebind_input", 1), ("rebind_input_and_target", 2))},
